@@ -220,6 +220,14 @@ func runMountCase(c MountCase, seed int64) []interface{} {
 	for _, p := range c.Patterns {
 		pats = append(pats, patText(p))
 	}
+	// the mount table is a set: the order in which MuxHandleOption lists the patterns is drawn
+	{
+		r := newRng(seed, c.ID, 33)
+		for i := len(pats) - 1; i > 0; i-- {
+			j := r.Intn(i + 1)
+			pats[i], pats[j] = pats[j], pats[i]
+		}
+	}
 	opts = append(opts, larking.MuxHandleOption(pats...))
 	for _, e := range c.Extras {
 		tag := e.Tag
